@@ -130,3 +130,22 @@ def build_ranked(name, driver_srcs, plain_srcs, nranks, variant="B", extra_plain
         cmd += list(extra_libs) + ["-lhwloc", "-lm", "-ldl", "-lpthread"]
         _run(cmd)
     return exe
+
+
+def build_ptg(program, depmode, nranks, variant="B"):
+    """PTG program -> JDF + reference (gen/ptg/gen.py) -> real ptgpp -> rankified harness binary."""
+    name = "ptg_%s_%s" % (program, "ia" if depmode == "index-array" else "ht")
+    hdir = os.path.join(P.WORK, "H", name)
+    os.makedirs(hdir, exist_ok=True)
+    gen = os.path.join(VERIF, "gen/ptg/gen.py")
+    jdf = os.path.join(hdir, program + ".jdf")
+    ptgpp = os.path.join(P.A, "parsec/interfaces/ptg/ptg-compiler/parsec-ptgpp")
+    if _newer(jdf, [gen]):
+        _run([sys.executable, gen, program, hdir])
+    cfile = os.path.join(hdir, program + ".c")
+    if _newer(cfile, [jdf, ptgpp]):
+        _run([ptgpp, "-E", "-i", jdf, "-o", os.path.join(hdir, program), "-f", program, "-M", depmode])
+    defines = ["-I" + hdir] + (["-DPTG_INDEX_ARRAY"] if depmode == "index-array" else [])
+    return build_ranked(name, [os.path.join(VERIF, "harness/l2/ptg_driver.c"), cfile],
+                        [os.path.join(VERIF, "harness/l2/ptg.c"), os.path.join(hdir, program + "_ref.c")],
+                        nranks, variant=variant, defines=defines)
